@@ -498,3 +498,6 @@ Section Collections.
     eexists _, kvs. repeat split; eauto. discriminate.
   Qed.
 End Collections.
+
+Lemma VList_inj' a b : VList a = VList b -> a = b. Proof. congruence. Qed.
+Lemma VTuple_inj' a b : VTuple a = VTuple b -> a = b. Proof. congruence. Qed.
